@@ -55,6 +55,7 @@ func workload(w *cbWorld, recoveryHeavy bool) {
 		w.sim.Quiesce()
 		w.check()
 	}
+	w.abandoned = func() bool { return rapid.IntRange(0, 7).Draw(rt, "abandoned") == 0 }
 	for i := 0; i < nops; i++ {
 		state := w.obs[len(w.obs)-1]
 		var kinds []string
